@@ -98,7 +98,7 @@ func echoUpstream() string {
 }
 
 func probe(c net.Conn, id uint32) error {
-	c.SetDeadline(time.Now().Add(5 * time.Second))
+	c.SetDeadline(time.Now().Add(30 * time.Second))
 	if _, err := c.Write(probeReq(id)); err != nil {
 		return err
 	}
